@@ -3,7 +3,7 @@ import ast
 
 from ..repo import AnalysisError
 from ..report import Ob, RuleSpec
-from ..astutil import (flatten_guard, src, flat_guards, calls_in, call_name, kwarg, const_value,
+from ..astutil import (always_leaves, flatten_guard, src, flat_guards, calls_in, call_name, kwarg, const_value,
                        iter_own_nodes, ancestors, is_within)
 from ..cfg import cfg_of, Prov, resolve_local
 from .. import variants as V
@@ -229,8 +229,17 @@ def r5_r6_irrelevant(repo):
                              ("%s.not_related(%s)" % (et, nm) == s and pol) for s, pol in gs)
                 # or: None-or-not_related via a leaving `if t is not None and not t.not_related(etype): return None`
                 if not rel_ok:
-                    for s_, pol in gs:
-                        if not pol and "not_related(" in s_ and nm in s_ and et in s_ and "not " in s_:
+                    # a negative compound guard (the leaving test): every conjunct must be one of: the relatedness test,
+                    # `t is not None` / `t`, or the structural fact that t came out of the instantiating branch - any
+                    # other conjunct (a flag, a table lookup) lets related results through when it is false
+                    for t_, pol in flat_guards(r):
+                        if pol or "not_related(" not in src(t_):
+                            continue
+                        conj = [(" ".join(src(a).split()), b) for a, b in flatten_guard(t_, True)]
+                        allowed = {("%s.not_related(%s)" % (nm, et), False), ("%s.not_related(%s)" % (et, nm), False),
+                                   ("%s is None" % nm, False), (nm, True), ("%s.is_type_constructor()" % nm, True),
+                                   ("t.is_type_constructor()", True)}
+                        if conj and all(x in allowed for x in conj) and any("not_related(" in x[0] for x in conj):
                             rel_ok = True
                 both = any("%s.is_subtype(%s)" % (nm, et) in s for s, _ in gs) and \
                     any("%s.is_subtype(%s)" % (et, nm) in s for s, _ in gs)
@@ -240,7 +249,6 @@ def r5_r6_irrelevant(repo):
             if not tested:
                 # leaving-if form right after the instantiation:
                 #   if t is not None and not t.not_related(etype): return None
-                from ..astutil import always_leaves, flatten_guard
                 blk = st._parent.body if st in getattr(st._parent, "body", []) else []
                 after = blk[blk.index(st) + 1:] if blk else []
                 for s2 in after:
